@@ -53,33 +53,7 @@ func c16(c *Check) {
 	forwarders(c, "C16/middleware-forwarding", "ibc.Module")
 
 	c.Rule("C16/cache-discipline", "automatic conversion runs on the cache context; write() is called once, only on ConvertCoin's err==nil edge; nothing but reads and event emission touches the outer ctx", 5)
-	c.Spec("C16/cache-discipline", m, FnSpec{Fn: "x/aggregate/keeper.Keeper.OnRecvPacket",
-		Effects: []Eff{
-			{Label: "ConvertCoin", Callee: "aggregate/keeper.(Keeper).ConvertCoin", N: 1, Args: map[int]string{1: "cosmos-sdk/types.WrapSDKContext({CC}#0)"}},
-			{Label: "write", Callee: "dyn:{CC}#1", N: 1, Under: []string{"({CONV}#1 == nil)"}},
-		},
-	})
-	// calls that receive the outer ctx directly
-	allowedOuter := []string{"(Context).CacheContext", "(Keeper).IsDenomRegistered", "(Context).EventManager"}
-	for _, cs := range c.P.CallsIn(hook) {
-		args := c.P.ArgExprs(cs)
-		uses := false
-		for _, a := range args {
-			if a.String() == "$1" {
-				uses = true
-			}
-		}
-		if !uses {
-			continue
-		}
-		ok := false
-		for _, al := range allowedOuter {
-			if strings.HasSuffix(cs.Name, al) {
-				ok = true
-			}
-		}
-		c.Req(ok, "C16/cache-discipline", funcName(hook)+"/outer-ctx-use:"+cs.Name, cs.Ins.Pos(), "read-only / event use of outer ctx", "call "+cs.Name+" operates on the outer ctx (not the cache context); a failure later in the hook would not undo it")
-	}
+	hookCacheRule(c, "C16/cache-discipline", m)
 
 	c.Rule("C16/converted-value", "the conversion message carries exactly the packet's amount, the IBC voucher denom of (dest port, dest channel, data.Denom) and data.Receiver, all from the one decoded packet data", 2)
 	c.Spec("C16/converted-value", m, FnSpec{Fn: "x/aggregate/keeper.Keeper.OnRecvPacket",
@@ -190,5 +164,37 @@ func forwarders(c *Check, rule, typeSpec string) {
 			}
 		}
 		c.Req(ok, rule, construct, fn.Pos(), "pure forwarder", "method does not forward its parameters unchanged to the wrapped module and return its results unchanged")
+	}
+}
+
+// hookCacheRule: the ICS-20 hook converts on the cache context and flushes it only on success (shared by C16 and C11).
+func hookCacheRule(c *Check, rule string, m Macros) {
+	hook := c.F("x/aggregate/keeper.Keeper.OnRecvPacket")
+	c.Spec(rule, m, FnSpec{Fn: "x/aggregate/keeper.Keeper.OnRecvPacket",
+		Effects: []Eff{
+			{Label: "ConvertCoin", Callee: "aggregate/keeper.(Keeper).ConvertCoin", N: 1, Args: map[int]string{1: "cosmos-sdk/types.WrapSDKContext({CC}#0)"}},
+			{Label: "write", Callee: "dyn:{CC}#1", N: 1, Under: []string{"({CONV}#1 == nil)"}},
+		},
+	})
+	// calls that receive the outer ctx directly
+	allowedOuter := []string{"(Context).CacheContext", "(Keeper).IsDenomRegistered", "(Context).EventManager"}
+	for _, cs := range c.P.CallsIn(hook) {
+		args := c.P.ArgExprs(cs)
+		uses := false
+		for _, a := range args {
+			if a.String() == "$1" {
+				uses = true
+			}
+		}
+		if !uses {
+			continue
+		}
+		ok := false
+		for _, al := range allowedOuter {
+			if strings.HasSuffix(cs.Name, al) {
+				ok = true
+			}
+		}
+		c.Req(ok, rule, funcName(hook)+"/outer-ctx-use:"+cs.Name, cs.Ins.Pos(), "read-only / event use of outer ctx", "call "+cs.Name+" operates on the outer ctx (not the cache context); a failure later in the hook would not undo it")
 	}
 }
